@@ -9,11 +9,12 @@ up to literal names (the literal tables themselves are unrelated).
 in related states.
 -/
 import NadaVerif.Trace
+import NadaVerif.Lemmas.TraceStored
 
 namespace NadaVerif
 
-/-- ids start at 1 (`next_operation_id` increments before it returns); 0 is never an id and is left alone -/
-def sh (k i : Nat) : Nat := if i = 0 then 0 else i + k
+/-- the id shift -/
+def sh (k i : Nat) : Nat := i + k
 
 mutual
 def Val.shift (k : Nat) : Val → Val
@@ -78,32 +79,42 @@ def shiftEraseE (k : Nat) (e : Id × AstOp) : Id × AstOp := (sh k e.1, (e.2.shi
 structure Rel (k : Nat) (hist : List (Id × AstOp)) (s t : St) : Prop where
   counter : t.counter = s.counter + k
   ops : t.ops.map eraseE = s.ops.map (shiftEraseE k) ++ hist.map eraseE
-  old : ∀ (i : Nat) (op : AstOp), (i, op) ∈ hist → 1 ≤ i ∧ i ≤ k
 
 /-- the two computations behave alike from related states -/
+def SimAt {α β : Type} (R : St → St → Prop) (Q : α → β → Prop) (x : M α) (y : M β) (s t : St) : Prop :=
+  match x.run.run s, y.run.run t with
+  | (.ok a, s'), (.ok b, t') => Q a b ∧ R s' t'
+  | (.error e, s'), (.error e', t') => e = e' ∧ R s' t'
+  | _, _ => False
+
 def Sim {α β : Type} (R : St → St → Prop) (Q : α → β → Prop) (x : M α) (y : M β) : Prop :=
-  ∀ s t, R s t →
-    match x.run.run s, y.run.run t with
-    | (.ok a, s'), (.ok b, t') => Q a b ∧ R s' t'
-    | (.error e, s'), (.error e', t') => e = e' ∧ R s' t'
-    | _, _ => False
+  ∀ s t, R s t → SimAt R Q x y s t
+
+theorem SimAt.mono {α β : Type} {R R' : St → St → Prop} {Q : α → β → Prop} {x : M α} {y : M β} {s t : St}
+    (hRR : ∀ s t, R s t → R' s t) (h : SimAt R Q x y s t) : SimAt R' Q x y s t := by
+  unfold SimAt at h ⊢
+  generalize x.run.run s = r1 at h ⊢
+  generalize y.run.run t = r2 at h ⊢
+  obtain ⟨e1, s1⟩ := r1
+  obtain ⟨e2, s2⟩ := r2
+  cases e1 <;> cases e2 <;> first | exact h.elim | exact ⟨h.1, hRR _ _ h.2⟩
 
 theorem Sim.pure {α β} {R : St → St → Prop} {Q : α → β → Prop} {a : α} {b : β} (h : Q a b) :
     Sim R Q (Pure.pure a : M α) (Pure.pure b : M β) := by
   intro s t hR
-  simpa [ExceptT.run, StateT.run, Pure.pure, ExceptT.pure, ExceptT.mk, StateT.pure] using ⟨h, hR⟩
+  simpa [SimAt, ExceptT.run, StateT.run, Pure.pure, ExceptT.pure, ExceptT.mk, StateT.pure] using ⟨h, hR⟩
 
 theorem Sim.throw {α β} {R : St → St → Prop} {Q : α → β → Prop} (e : Err) :
     Sim R Q (throw e : M α) (throw e : M β) := by
   intro s t hR
-  simpa [ExceptT.run, StateT.run, MonadExcept.throw, throw, throwThe, MonadExceptOf.throw, ExceptT.mk, Pure.pure, StateT.pure] using hR
+  simpa [SimAt, ExceptT.run, StateT.run, MonadExcept.throw, throw, throwThe, MonadExceptOf.throw, ExceptT.mk, Pure.pure, StateT.pure] using hR
 
 theorem Sim.bind {α β γ δ} {R : St → St → Prop} {Q : α → β → Prop} {Q' : γ → δ → Prop}
     {x : M α} {y : M β} {f : α → M γ} {g : β → M δ}
     (h1 : Sim R Q x y) (h2 : ∀ a b, Q a b → Sim R Q' (f a) (g b)) : Sim R Q' (x >>= f) (y >>= g) := by
   intro s t hR
   have := h1 s t hR
-  simp only [ExceptT.run, StateT.run, Bind.bind, ExceptT.bind, ExceptT.mk, StateT.bind, ExceptT.bindCont] at this ⊢
+  simp only [SimAt, ExceptT.run, StateT.run, Bind.bind, ExceptT.bind, ExceptT.mk, StateT.bind, ExceptT.bindCont] at this ⊢
   generalize hx : x s = rx at this ⊢
   generalize hy : y t = ry at this ⊢
   obtain ⟨ex, s'⟩ := rx
@@ -116,7 +127,9 @@ theorem Sim.bind {α β γ δ} {R : St → St → Prop} {Q : α → β → Prop}
   | ok a =>
     cases ey with
     | error e' => exact this.elim
-    | ok b => exact h2 a b this.1 s' t' this.2
+    | ok b =>
+      have h3 := h2 a b this.1 s' t' this.2
+      simpa only [SimAt, ExceptT.run, StateT.run] using h3
 
 end NadaVerif.Lemmas
 
@@ -127,20 +140,20 @@ variable {k : Nat} {hist : List (Id × AstOp)}
 
 theorem Sim.alloc : Sim (Rel k hist) (fun a b => b = sh k a) alloc alloc := by
   intro s t hR
-  simp only [alloc, ExceptT.run, StateT.run, Bind.bind, ExceptT.bind, ExceptT.mk, StateT.bind, ExceptT.bindCont, get, getThe,
+  simp only [SimAt, alloc, ExceptT.run, StateT.run, Bind.bind, ExceptT.bind, ExceptT.mk, StateT.bind, ExceptT.bindCont, get, getThe,
     MonadStateOf.get, liftM, monadLift, MonadLift.monadLift, ExceptT.lift, StateT.get, Pure.pure, StateT.pure, set, MonadStateOf.set,
     StateT.set, Functor.map, StateT.map, ExceptT.pure]
-  refine ⟨?_, ⟨?_, hR.ops, hR.old⟩⟩
-  · rw [hR.counter]; simp only [sh, Nat.add_one_ne_zero, if_false]; omega
+  refine ⟨?_, ⟨?_, hR.ops⟩⟩
+  · rw [hR.counter]; simp only [sh]; omega
   · simp only [hR.counter]; omega
 
 theorem Sim.put {i j : Id} {op op' : AstOp} (hi : j = sh k i) (hop : op'.eraseIdx = (op.shift k).eraseIdx) :
     Sim (Rel k hist) (fun _ _ => True) (put i op) (put j op') := by
   intro s t hR
   subst hi
-  simp only [put, modify, modifyGet, MonadStateOf.modifyGet, ExceptT.run, StateT.run, liftM, monadLift, MonadLift.monadLift,
+  simp only [SimAt, put, modify, modifyGet, MonadStateOf.modifyGet, ExceptT.run, StateT.run, liftM, monadLift, MonadLift.monadLift,
     ExceptT.lift, StateT.modifyGet, Functor.map, StateT.map, Pure.pure, StateT.pure, ExceptT.mk, Bind.bind, StateT.bind]
-  refine ⟨trivial, ⟨hR.counter, ?_, hR.old⟩⟩
+  refine ⟨trivial, ⟨hR.counter, ?_⟩⟩
   simp only [List.map_cons, List.cons_append, hR.ops, eraseE, shiftEraseE, hop]
 
 theorem litIndex_run (key : String) (s : St) :
@@ -161,8 +174,9 @@ theorem Sim.litIndex (key : String) : Sim (Rel k hist) (fun _ _ => True) (litInd
   intro s t hR
   obtain ⟨i, l, hs⟩ := litIndex_run key s
   obtain ⟨j, l', ht⟩ := litIndex_run key t
+  unfold SimAt
   rw [hs, ht]
-  exact ⟨trivial, ⟨hR.counter, hR.ops, hR.old⟩⟩
+  exact ⟨trivial, ⟨hR.counter, hR.ops⟩⟩
 
 theorem Sim.liftE {α} {R : St → St → Prop} (e : Except Err α) : Sim R (fun a b => b = a) (liftE e) (liftE e) := by
   cases e with
@@ -1068,7 +1082,7 @@ open NadaVerif
 variable {k : Nat} {hist : List (Id × AstOp)}
 
 theorem sh_inj {k a b : Nat} : sh k a = sh k b ↔ a = b := by
-  unfold sh; split <;> split <;> omega
+  unfold sh; omega
 
 theorem find_erase (l : List (Id × AstOp)) (j : Id) :
     (l.map eraseE).find? (·.1 == j) = (l.find? (·.1 == j)).map eraseE := by
@@ -1091,88 +1105,109 @@ theorem find_shift (l : List (Id × AstOp)) (c : Id) :
     | true => rfl
     | false => exact ih
 
-theorem find_old (hold : ∀ (i : Nat) (op : AstOp), (i, op) ∈ hist → 1 ≤ i ∧ i ≤ k) (c : Nat) :
-    (hist.map eraseE).find? (·.1 == sh k c) = none := by
-  rw [List.find?_eq_none]
-  intro e he
-  obtain ⟨e0, he0, rfl⟩ := List.mem_map.mp he
-  obtain ⟨i, op⟩ := e0
-  have h := hold i op he0
-  intro heq
-  simp only [eraseE, beq_iff_eq] at heq
-  have h2 : i = sh k c := heq
-  rw [h2] at h
-  unfold sh at h
-  split at h <;> omega
-
-theorem lookup_rel {s t : St} (hR : Rel k hist s t) (c : Id) :
-    (t.lookup (sh k c)).map AstOp.eraseIdx = (s.lookup c).map (fun op => (op.shift k).eraseIdx) := by
+/-- a record the unshifted store holds is found, shifted, in the related store — whatever the history holds -/
+theorem lookup_rel {s t : St} (hR : Rel k hist s t) (c : Id) (op : AstOp) (hs : s.lookup c = some op) :
+    (t.lookup (sh k c)).map AstOp.eraseIdx = some (op.shift k).eraseIdx := by
   have h1 : (t.lookup (sh k c)).map AstOp.eraseIdx = ((t.ops.map eraseE).find? (·.1 == sh k c)).map (·.2) := by
     rw [find_erase]; simp [St.lookup, eraseE, Function.comp_def]
-  rw [h1, hR.ops, List.find?_append, find_shift, find_old hR.old, Option.or_none]
-  simp [St.lookup, shiftEraseE, Function.comp_def]
-
-end NadaVerif.Lemmas
-
-namespace NadaVerif.Lemmas
-open NadaVerif
-
-variable {k : Nat} {hist : List (Id × AstOp)}
+  rw [h1, hR.ops, List.find?_append, find_shift]
+  simp only [St.lookup, Option.map_eq_some_iff] at hs
+  obtain ⟨e, he, rfl⟩ := hs
+  rw [he]
+  simp [shiftEraseE]
 
 theorem Sim.get {R : St → St → Prop} : Sim R (fun a b => R a b) (get : M St) (get : M St) := by
   intro s t hR
-  simpa [ExceptT.run, StateT.run, get, getThe, MonadStateOf.get, liftM, monadLift, MonadLift.monadLift, ExceptT.lift, StateT.get,
+  simpa [SimAt, ExceptT.run, StateT.run, get, getThe, MonadStateOf.get, liftM, monadLift, MonadLift.monadLift, ExceptT.lift, StateT.get,
     Functor.map, StateT.map, ExceptT.mk, Pure.pure, StateT.pure, Bind.bind, StateT.bind] using ⟨hR, hR⟩
 
 theorem eraseIdx_input {op : AstOp} {n p d ty} (h : op.eraseIdx = .input n p d ty) : op = .input n p d ty := by
   cases op <;> simp_all [AstOp.eraseIdx]
 
-theorem lookup_input {s t : St} (hR : Rel k hist s t) (c : Id) (n p d ty) :
+theorem has_lookup {ops : List (Id × AstOp)} {c : Id} (h : Has ops c) (cnt : Nat) (l : List String) :
+    ∃ op, (St.mk cnt ops l).lookup c = some op := by
+  obtain ⟨op, hm⟩ := h
+  cases hf : ops.find? (·.1 == c) with
+  | none =>
+    have := List.find?_eq_none.mp hf (c, op) hm
+    simp at this
+  | some e => exact ⟨e.2, by simp [St.lookup, hf]⟩
+
+theorem lookup_input {s t : St} (hR : Rel k hist s t) (c : Id) (hc : Has s.ops c) (n p d ty) :
     s.lookup c = some (.input n p d ty) ↔ t.lookup (sh k c) = some (.input n p d ty) := by
-  have h := lookup_rel hR c
-  constructor
-  · intro hs
-    rw [hs] at h
-    cases ht : t.lookup (sh k c) with
-    | none => rw [ht] at h; simp at h
-    | some op' =>
-      rw [ht] at h
-      simp only [Option.map, AstOp.shift, AstOp.eraseIdx, Option.some.injEq] at h
-      rw [eraseIdx_input h]
-  · intro ht
+  obtain ⟨op, hs⟩ := has_lookup hc s.counter s.lits
+  have hs : s.lookup c = some op := hs
+  have h := lookup_rel hR c op hs
+  cases ht : t.lookup (sh k c) with
+  | none => rw [ht] at h; simp at h
+  | some op' =>
     rw [ht] at h
-    cases hs : s.lookup c with
-    | none => rw [hs] at h; simp at h
-    | some op =>
-      rw [hs] at h
-      simp only [Option.map, AstOp.eraseIdx, Option.some.injEq] at h
+    simp only [Option.map, Option.some.injEq] at h
+    rw [hs]
+    constructor
+    · intro he
+      simp only [Option.some.injEq] at he
+      subst he
+      simp only [AstOp.shift, AstOp.eraseIdx] at h
+      rw [eraseIdx_input h]
+    · intro he
+      simp only [Option.some.injEq] at he
+      subst he
       cases op <;> simp_all [AstOp.shift, AstOp.eraseIdx]
+
+/-- the relation for the one command that reads the store: the registers' ids are stored on the unshifted side -/
+def RelS (k : Nat) (hist : List (Id × AstOp)) (regs : List RVal) (s t : St) : Prop :=
+  Rel k hist s t ∧ RegsSto s.ops regs
+
+theorem putS_sim {regs : List RVal} {i j : Id} {op op' : AstOp} (hi : j = sh k i) (hop : op'.eraseIdx = (op.shift k).eraseIdx) :
+    Sim (RelS k hist regs) (fun _ _ => True) (put i op) (put j op') := by
+  intro s t hR
+  have := Sim.put (hist := hist) hi hop s t hR.1
+  simp only [SimAt, put, modify, modifyGet, MonadStateOf.modifyGet, ExceptT.run, StateT.run, liftM, monadLift, MonadLift.monadLift,
+    ExceptT.lift, StateT.modifyGet, Functor.map, StateT.map, Pure.pure, StateT.pure, ExceptT.mk, Bind.bind, StateT.bind] at this ⊢
+  refine ⟨trivial, this.2, ?_⟩
+  exact hR.2.mono (fun x hx => by obtain ⟨o, ho⟩ := hx; exact ⟨o, List.mem_cons_of_mem _ ho⟩)
 
 theorem toMir_arrayOf (v : Val) (n : Option Int) (c c' : Option Id) :
     (Val.array (.inst (v.shift k)) n c').toMir = (Val.array (.inst v) n c).toMir := toMir_array_inst v n c c'
 
-theorem es_arrayOf (regs : List RVal) (frames : List Frame) (r size) : ExecSim k hist regs frames (.arrayOf r size) := by
-  unfold ExecSim exec
+/-- `Array(value, size=…)` re-types the input record of its operand: the one command that reads the store -/
+theorem es_arrayOf (regs : List RVal) (frames : List Frame) (r size) :
+    Sim (RelS k hist regs) (ResRel k) (exec regs frames (.arrayOf r size))
+      (exec (shiftRegs k regs) (shiftFrames k frames) (.arrayOf r size)) := by
+  unfold exec
   simp only
   refine Sim.ite (Sim.throw _) ?_
-  sim_val regs r
-  rename_i v
-  refine Sim.bind (childOf_sim v) (fun c c' h => ?_)
-  subst h
-  rw [toMir_arrayOf v size (some c)]
-  sim_liftE
-  refine Sim.bind Sim.get (fun s t hR => ?_)
-  split
-  · rename_i name pn doc ty0 hs
-    rw [(lookup_input hR c name pn doc ty0).mp hs]
-    simp only
-    sim_put
-    sim_done
-  · rename_i hno
-    split
-    · rename_i name pn doc ty0 ht
-      exact (hno name pn doc ty0 ((lookup_input hR c name pn doc ty0).mpr ht)).elim
-    · exact Sim.throw _
+  unfold getVal
+  rw [shiftRegs_get]
+  cases hreg : regs[r]? with
+  | none => exact Sim.bind (Sim.throw (Q := fun (a b : Val) => False) _) (fun _ _ h => h.elim)
+  | some x =>
+    cases x <;> simp only [Option.map, RVal.shift]
+    case val v =>
+      simp only [pure_bind]
+      unfold childOf
+      rw [child_shift]
+      cases hch : v.child with
+      | none => exact Sim.bind (Sim.throw (Q := fun (a b : Id) => False) _) (fun _ _ h => h.elim)
+      | some c =>
+        simp only [Option.map, pure_bind]
+        rw [toMir_arrayOf v size (some c)]
+        sim_liftE
+        refine Sim.bind Sim.get (fun s t hR => ?_)
+        have hhas : Has s.ops c := sreg_child hR.2 hreg hch
+        split
+        · rename_i name pn doc ty0 hs
+          rw [(lookup_input hR.1 c hhas name pn doc ty0).mp hs]
+          simp only
+          refine Sim.bind (putS_sim rfl (by simp [AstOp.shift])) (fun _ _ _ => ?_)
+          sim_done
+        · rename_i hno
+          split
+          · rename_i name pn doc ty0 ht
+            exact (hno name pn doc ty0 ((lookup_input hR.1 c hhas name pn doc ty0).mpr ht)).elim
+          · exact Sim.throw _
+    all_goals exact Sim.bind (Sim.throw (Q := fun (a b : Val) => False) _) (fun _ _ h => h.elim)
 
 end NadaVerif.Lemmas
 
@@ -1181,13 +1216,14 @@ open NadaVerif
 
 variable {k : Nat} {hist : List (Id × AstOp)}
 
-/-- every command is equivariant under the shift -/
-theorem exec_sim (regs : List RVal) (frames : List Frame) (c : Cmd) : ExecSim k hist regs frames c := by
+/-- every command that does not read the store is equivariant under the shift from any related states -/
+theorem exec_sim (regs : List RVal) (frames : List Frame) (c : Cmd) (hc : ∀ r size, c ≠ .arrayOf r size) :
+    ExecSim k hist regs frames c := by
   cases c with
   | party n => exact es_party regs frames n
   | inputObj name doc p => exact es_inputObj regs frames name doc p
   | wrap t r => exact es_wrap regs frames t r
-  | arrayOf r size => exact es_arrayOf regs frames r size
+  | arrayOf r size => exact (hc r size rfl).elim
   | lit base v => exact es_lit regs frames base v
   | bin op a b => exact es_bin regs frames op a b
   | invert a => exact es_invert regs frames a
@@ -1213,6 +1249,18 @@ theorem exec_sim (regs : List RVal) (frames : List Frame) (c : Cmd) : ExecSim k 
   | call f args kws => exact es_call regs frames f args kws
   | nop => exact es_nop regs frames
 
+/-- **every command** is equivariant under the shift, from related states whose unshifted side stores the ids its
+registers mention (true of every reachable machine: `trace_stored`) -/
+theorem exec_sim_at (regs : List RVal) (frames : List Frame) (c : Cmd) (s t : St) (hR : Rel k hist s t)
+    (hs : RegsSto s.ops regs) :
+    SimAt (Rel k hist) (ResRel k) (exec regs frames c) (exec (shiftRegs k regs) (shiftFrames k frames) c) s t := by
+  by_cases hc : ∀ r size, c ≠ .arrayOf r size
+  · exact exec_sim regs frames c hc s t hR
+  · have : ∃ r size, c = .arrayOf r size := by
+      cases c <;> simp_all
+    obtain ⟨r, size, rfl⟩ := this
+    exact (es_arrayOf (k := k) (hist := hist) regs frames r size s t ⟨hR, hs⟩).mono (fun _ _ h => h.1)
+
 /-- machine `m'` is machine `m` shifted by `k` on top of `hist` -/
 structure MRel (k : Nat) (hist : List (Id × AstOp)) (m m' : Mach) : Prop where
   st : Rel k hist m.st m'.st
@@ -1225,11 +1273,12 @@ theorem shiftRegs_append (a b : List RVal) : shiftRegs k (a ++ b) = shiftRegs k 
 theorem shiftRegs_dead (n : Nat) : shiftRegs k (List.replicate n RVal.dead) = List.replicate n RVal.dead := by
   simp [shiftRegs, RVal.shift]
 
-theorem step_sim {m m' : Mach} (h : MRel k hist m m') (c : Cmd) :
+theorem step_sim {m m' : Mach} (h : MRel k hist m m') (hm : MachSto m) (c : Cmd) :
     MRel k hist (step m c).1 (step m' c).1 ∧ (step m c).2 = (step m' c).2 := by
-  have hs := exec_sim (k := k) (hist := hist) m.regs m.frames c m.st m'.st h.st
+  have hs := exec_sim_at (k := k) (hist := hist) m.regs m.frames c m.st m'.st h.st hm.2.1
   unfold step
   rw [h.regs, h.frames]
+  unfold SimAt at hs
   generalize (exec m.regs m.frames c).run.run m.st = r1 at hs ⊢
   generalize (exec (shiftRegs k m.regs) (shiftFrames k m.frames) c).run.run m'.st = r2 at hs ⊢
   obtain ⟨e1, s1⟩ := r1
@@ -1251,14 +1300,14 @@ theorem step_sim {m m' : Mach} (h : MRel k hist m m') (c : Cmd) :
     | error e' =>
       obtain ⟨rfl, hr⟩ := hs
       refine ⟨⟨hr, by simp [shiftRegs_append, shiftRegs_dead], ?_⟩, rfl⟩
-      cases c <;> simp [shiftFrames, List.map_drop]
+      cases c <;> simp [shiftFrames]
 
-theorem runCmds_sim : ∀ (cs : List Cmd) {m m' : Mach}, MRel k hist m m' →
+theorem runCmds_sim : ∀ (cs : List Cmd) {m m' : Mach}, MRel k hist m m' → MachSto m →
     MRel k hist (runCmds m cs).1 (runCmds m' cs).1 ∧ (runCmds m cs).2 = (runCmds m' cs).2
-  | [], _, _, h => ⟨h, rfl⟩
-  | c :: cs, m, m', h => by
-    have h1 := step_sim h c
-    have h2 := runCmds_sim cs h1.1
+  | [], _, _, h, _ => ⟨h, rfl⟩
+  | c :: cs, m, m', h, hm => by
+    have h1 := step_sim h hm c
+    have h2 := runCmds_sim cs h1.1 (step_sto m c hm)
     simp only [runCmds]
     exact ⟨h2.1, by rw [h1.2, h2.2]⟩
 
